@@ -82,6 +82,14 @@ def real(pattern, mode, path):
 
 
 def run(case):
+    if 'batch' in case:
+        n = 0
+        for c in case['batch']:
+            out = run(c)
+            n += len(c['paths'])
+            if out['fails']:
+                return {'fails': True, 'why': out['why'], 'failing_case': c, 'cases': n}
+        return {'fails': False, 'why': '', 'cases': n}
     problems = []
     for path in case['paths']:
         want = declarative(case['pattern'], case['mode'], path)
